@@ -247,6 +247,10 @@ def check(ctx):
                 "interp1d(x = self.time, y = recovery, bounds_error=False, fill_value=(0, recovery[-1]))", signature="; ".join(probs)[:160], problems=probs,
             )
         ctx.floor("C17-e", n, 1, "interpolator partitions")
+    # C17-f: the recovery the interpolator may reuse belongs to the current simulation (shared effect rule of C10)
+    from .c10 import family_rules
+
+    family_rules(ctx, {"a": "C17-f"})
     ctx.floor("C17", len(ctx.obligs), 14, "shift / schedule / guard obligations")
 
 
